@@ -54,7 +54,7 @@ mod verif_c19 {
     let len: u64 = kani::any();
     kani::assume(len <= (9u64 << 20));
     let _name = vstub::make_rom_file(&raw, len);
-    let mut f = vstub::dummy_file();
+    let mut f = vstub::open_for_read_header(_name);
     let r = crate::system::read_header(&mut f);
     core::mem::forget(f);
     match r {
@@ -71,6 +71,44 @@ mod verif_c19 {
       }
     }
     kani::cover!(len == 0x14f, "reached");
+  }
+
+
+  /// The real `system::read_header` on files cut at the interesting lengths (concrete lengths keep the read loop
+  /// concrete; the thorough tier has the same check with a symbolic length).
+  fn read_header_at(len: u64) {
+    let raw: [u8; 80] = kani::any();
+    let _name = vstub::make_rom_file(&raw, len);
+    let mut f = vstub::open_for_read_header(_name);
+    let r = crate::system::read_header(&mut f);
+    core::mem::forget(f);
+    match r {
+      Ok(h) => {
+        vassert!(len >= 0x150, "C19.read_header.accepts_truncated_header");
+        let probe: usize = kani::any();
+        kani::assume(probe < 80);
+        let got: [u8; 80] = unsafe { core::mem::transmute(h) };
+        vassert!(got[probe] == raw[probe], "C19.read_header.bytes");
+      }
+      Err(e) => {
+        vassert!(len < 0x150, "C19.read_header.rejects_complete_header");
+        core::mem::forget(e);
+      }
+    }
+  }
+  #[kani::proof]
+  #[kani::unwind(6)]
+  #[kani::stub(<std::fs::File as std::io::Seek>::seek, vstub::stub_file_seek)]
+  #[kani::stub(<std::fs::File as std::io::Read>::read, vstub::stub_file_read)]
+  fn c19_read_header_cut_files() {
+    read_header_at(0);
+    read_header_at(0x100);
+    read_header_at(0x101);
+    read_header_at(0x14e);
+    read_header_at(0x14f);
+    read_header_at(0x150);
+    read_header_at(0x8000);
+    kani::cover!(true, "reached");
   }
 
   macro_rules! loadh {
